@@ -14,7 +14,8 @@ EXTENDS DebDependency
 \*   "q-native" / "q-any" / "q-target": the name carries a multiarch qualifier (pkg:native, pkg:any, pkg:amd64) - it still names
 \*   that binary;  "versioned": a version constraint follows the name
 \*   "only-kbsd-any" [kfreebsd-any] / "not-kbsd-any" [!kfreebsd-any]: a wildcard for ANOTHER operating system (the target is linux)
-Admits(restr) == restr \in {"none", "only-target", "not-other", "q-native", "q-any", "q-target", "versioned", "not-kbsd-any", "only-linux-any"}
+\*   "only-gnu-any-amd64" [gnu-any-amd64]: a three-part wildcard whose only open component is the operating system
+Admits(restr) == restr \in {"none", "only-target", "not-other", "q-native", "q-any", "q-target", "versioned", "not-kbsd-any", "only-linux-any", "only-gnu-any-amd64"}
 Selected(rel) == LET ok == {k \in 1..Len(rel) : rel[k].restr # "substvar" /\ Admits(rel[k].restr)} IN
                  IF ok = {} THEN <<>> ELSE <<rel[CHOOSE k \in ok : \A j \in ok : k <= j].name>>
 \* source = [name, binaries, fields]  fields = <<bd, bda, bdi>> each a sequence of relations
@@ -54,6 +55,7 @@ RenderAlt(a) ==
       [] a.restr = "none"        -> a.name
       [] a.restr = "only-kbsd-any"  -> a.name \o <<SP, LBRACK, 107, 102, 114, 101, 101, 98, 115, 100, HYPHEN, 97, 110, 121, RBRACK>>
       [] a.restr = "not-kbsd-any"   -> a.name \o <<SP, LBRACK, BANG, 107, 102, 114, 101, 101, 98, 115, 100, HYPHEN, 97, 110, 121, RBRACK>>
+      [] a.restr = "only-gnu-any-amd64" -> a.name \o <<SP, LBRACK, 103, 110, 117, HYPHEN, 97, 110, 121, HYPHEN>> \o TargetArch \o <<RBRACK>>
       [] a.restr = "only-linux-any" -> a.name \o <<SP, LBRACK, 108, 105, 110, 117, 120, HYPHEN, 97, 110, 121, RBRACK>>
       [] a.restr = "q-native"    -> a.name \o <<COLON, 110, 97, 116, 105, 118, 101>>
       [] a.restr = "q-any"       -> a.name \o <<COLON, 97, 110, 121>>
